@@ -4,6 +4,7 @@
 -/
 import Fips204.Spec.Codec
 import Fips204.Lemmas.HintCodec
+import Fips204.Lemmas.SignOk
 namespace Fips204.Impl
 open Fips204 Fips204.Gen
 
@@ -116,5 +117,96 @@ theorem hintBitUnpack_is_algorithm_21 (m : Mode) (k : Nat) (omega : Int) (y : Li
         simp only [decide_eq_true_eq]
         omega
       rw [dassert_dec m _ _ hall, ok_bind]; rfl
+
+
+/-! ### HintBitPack -/
+
+theorem spec_hintPackPoly_eq : ∀ (L : List (Nat × Int)) (y : List Nat) (idx : Nat), (∀ je ∈ L, je.1 < 256) →
+    Spec.hintPackPoly L y idx = (wr y idx (nzIdx L), idx + (nzIdx L).length) := by
+  intro L
+  induction L with
+  | nil => intro y idx _; simp [Spec.hintPackPoly, nzIdx, wr]
+  | cons je L ih =>
+    intro y idx h
+    obtain ⟨j, e⟩ := je
+    have hj : j < 256 := h (j, e) List.mem_cons_self
+    rw [nzIdx_cons]
+    unfold Spec.hintPackPoly
+    by_cases he : e ≠ 0
+    · rw [if_pos he, if_pos he, ih _ _ (fun x hx => h x (List.mem_cons_of_mem _ hx))]
+      simp only [wr, List.length_cons, Nat.mod_eq_of_lt hj]
+      congr 1; omega
+    · rw [if_neg he, if_neg he]
+      exact ih y idx (fun x hx => h x (List.mem_cons_of_mem _ hx))
+
+theorem packOuter_fold_is_spec (outLen om k : Nat) (hol : outLen = om + k) (hk : om + k < 256) : ∀ (hs : List Poly) (i0 : Nat) (Y : List Nat) (idx : Nat),
+    Y.length = om + k → idx + onesAll hs ≤ om → i0 + hs.length ≤ k → (∀ q ∈ hs, Bin q) →
+    ∃ idx', (List.zip (List.range' i0 hs.length) hs).foldlM (hintPackOuter false outLen om) (Y, idx) =
+      .ok (Spec.hintPackFor om (List.zip (List.range' i0 hs.length) hs) Y idx, idx') := by
+  intro hs
+  induction hs with
+  | nil => intro i0 Y idx _ _ _ _; exact ⟨idx, by simp [pure_eq, Spec.hintPackFor]⟩
+  | cons hp hs ih =>
+    intro i0 Y idx hY hsum hik hb
+    rw [onesAll_cons] at hsum
+    rw [List.length_cons] at hik
+    have hbin := hb hp (List.mem_cons_self ..)
+    have hnz : (nzIdx (List.zip (List.range 256) hp)).length = ones hp := by
+      have := nzIdx_len_bin hp 0 hbin.2
+      rw [hbin.1, ← List.range_eq_range'] at this; exact this
+    have hin := packInner_fold outLen (List.zip (List.range 256) hp) Y idx (by rw [hnz, hY]; omega)
+    rw [List.length_cons, List.range'_succ, List.zip_cons_cons, List.foldlM_cons]
+    have hstep : hintPackOuter false outLen om (Y, idx) (i0, hp) =
+        .ok ((wr Y idx (nzIdx (List.zip (List.range 256) hp))).set (om + i0) ((idx + ones hp) % 256), idx + ones hp) := by
+      unfold hintPackOuter
+      simp only []
+      rw [hin, ok_bind]
+      simp only []
+      unfold setAt
+      rw [if_pos (by rw [wr_length, hY]; omega), pure_eq, ok_bind, pure_eq, hnz]
+    rw [hstep, ok_bind]
+    obtain ⟨idx', hrest⟩ := ih (i0 + 1) ((wr Y idx (nzIdx (List.zip (List.range 256) hp))).set (om + i0) ((idx + ones hp) % 256)) (idx + ones hp)
+      (by rw [List.length_set, wr_length]; exact hY) (by omega) (by omega)
+      (fun q hq => hb q (List.mem_cons_of_mem _ hq))
+    refine ⟨idx', ?_⟩
+    rw [hrest]
+    have hmod : (idx + ones hp) % 256 = idx + ones hp := Nat.mod_eq_of_lt (by omega)
+    have hspec : Spec.hintPackFor om ((i0, hp) :: List.zip (List.range' (i0 + 1) hs.length) hs) Y idx =
+        Spec.hintPackFor om (List.zip (List.range' (i0 + 1) hs.length) hs)
+          ((wr Y idx (nzIdx (List.zip (List.range 256) hp))).set (om + i0) ((idx + ones hp) % 256)) (idx + ones hp) := by
+      rw [Spec.hintPackFor]
+      rw [spec_hintPackPoly_eq _ Y idx (fun je hje => by
+        have := List.of_mem_zip hje
+        exact List.mem_range.mp this.1)]
+      simp only [hnz, hmod]
+    rw [hspec]
+
+/-- **`hint_bit_pack` is FIPS 204 Algorithm 20 (`HintBitPack`) as written**, on every 0/1 hint vector with at most omega ones -/
+theorem hintBitPack_is_algorithm_20 (m : Mode) (omega : Int) (h : List Poly) (k : Nat) (ho : 0 ≤ omega) (hk : h.length = k)
+    (hok : 1 ≤ omega.toNat + k ∧ omega.toNat + k < 256) (hb : ∀ q ∈ h, Bin q) (hsum : onesAll h ≤ omega.toNat) :
+    hintBitPack m false omega h (omega.toNat + k) = .ok (Spec.hintBitPack omega.toNat h) := by
+  unfold hintBitPack
+  rw [if_neg (by omega)]
+  simp only [hk]
+  obtain ⟨bs, hbs, _, hbt⟩ := mapM_ok_len (fun p => isInRange m p 0 1) (fun r => r ∈ h) (fun b => b = true)
+    (fun r hr' => ⟨true, isInRange_true m r 0 1 (by omega) (fun c hc => by
+      rcases (hb r hr').2 c hc with h0 | h1 <;> omega), rfl⟩) h (fun a ha => ha)
+  have hall : bs.all id = true := by rw [List.all_eq_true]; intro b hb'; exact hbt b hb'
+  have d3 : dassertM m "conversion.rs:hint_bit_pack:debug_assert(Alg 20: h not 0/1)" (do
+      let bs ← h.mapM (fun p => isInRange m p 0 1)
+      pure (bs.all id)) = .ok () := by
+    apply dassertM_ok; rw [hbs, ok_bind, pure_eq, hall]
+  have d4 : (h.all fun p => decide (countOnes p ≤ omega)) = true := by
+    rw [List.all_eq_true]; intro q hq
+    have := ones_le_onesAll h q hq
+    rw [countOnes_eq]; simp only [decide_eq_true_eq]; omega
+  obtain ⟨idx', hf⟩ := packOuter_fold_is_spec (omega.toNat + k) omega.toNat k rfl hok.2 h 0 (List.replicate (omega.toNat + k) 0) 0
+    (List.length_replicate ..) (by omega) (by omega) hb
+  rw [hk, ← List.range_eq_range'] at hf
+  rw [dassert_dec m _ _ (show (decide (1 ≤ omega.toNat + k) && decide (omega.toNat + k < 256)) = true by simp; omega), ok_bind,
+    dassert_dec m _ _ (show (omega.toNat + k == omega.toNat + k) = true by simp), ok_bind, d3, ok_bind, dassert_dec m _ _ d4, ok_bind,
+    hf, ok_bind, pure_eq]
+  unfold Spec.hintBitPack
+  rw [hk]
 
 end Fips204.Impl
